@@ -173,14 +173,15 @@ def chain(ctx: Ctx, M):
     if not shared or any(set(tl) & set(shared) for tl in M.task_leaves):
         return
     ts = P.build(DT)
-    T = len(M.losses)
+    losses = list(dict.fromkeys(M.losses))      # two heads may end in the very same scalar
+    T = len(losses)
     m = ctx.rng.choice([1, 2, 3])
-    cot = {l: ints(ctx.rng, (m,)) for l in M.losses}
-    j1 = Jac([ts[l] for l in M.losses], [ts[f] for f in M.features], None, retain_graph=True)(
-        Jacobians({ts[l]: cot[l] for l in M.losses}))
+    cot = {l: ints(ctx.rng, (m,)) for l in losses}
+    j1 = Jac([ts[l] for l in losses], [ts[f] for f in M.features], None, retain_graph=True)(
+        Jacobians({ts[l]: cot[l] for l in losses}))
     j2 = Jac([ts[f] for f in M.features], [ts[s] for s in shared], None, retain_graph=True)(j1)
-    je = Jac([ts[l] for l in M.losses], [ts[s] for s in shared], None, retain_graph=True)(
-        Jacobians({ts[l]: cot[l] for l in M.losses}))
+    je = Jac([ts[l] for l in losses], [ts[s] for s in shared], None, retain_graph=True)(
+        Jacobians({ts[l]: cot[l] for l in losses}))
     ctx.count("transform", "Jac-chain")
     ctx.case(("chain", tuple(P.describe()), m), nontrivial=True)
     for s in shared:
